@@ -45,8 +45,8 @@ class Cli:
                     self.option_kw[n] = kw
         self.config = None
         for e in I.events:
-            if e.kind == "new" and e.data[0] == "pel.peltool.config.Config" and e.func == PT + "main":
-                self.config = e.data[1]
+            if e.kind == "new" and e.data[0] == "pel.peltool.config.Config" and self.config is None:
+                self.config = e.data[1]      # the options object (built by main or a helper of it)
 
     def norm(self, t):
         return subst(t, self.map)
@@ -58,7 +58,7 @@ class Cli:
         """[(attr, value term, guard term, event)] for stores into the Config object made by main"""
         out = []
         for e in self.events:
-            if e.kind == "attr_store" and e.func == PT + "main" and e.data[0] == self.config:
+            if e.kind == "attr_store" and e.data[0] == self.config and not e.func.endswith("Config.__init__"):
                 out.append((e.data[1], self.norm(e.data[2]), self.norm(e.guard), e))
         return out
 
@@ -66,13 +66,14 @@ class Cli:
         """[(function short name, args, guard, event)] for every mode function call in main"""
         out = []
         for e in self.events:
-            if e.kind in ("opaquecall", "call") and e.func == PT + "main" and e.data[0].startswith(PT) \
-                    and e.data[0][len(PT):] in MODE_FUNCS:
+            if e.kind in ("opaquecall", "call") and e.data[0].startswith(PT) and e.data[0][len(PT):] in MODE_FUNCS \
+                    and not any(q.startswith(PT) and q[len(PT):] in MODE_FUNCS for q in e.stack):
                 out.append((e.data[0][len(PT):], [self.norm(a) for a in e.data[1]], self.norm(e.guard), e))
         return out
 
     def exits(self):
-        return [(self.norm(e.guard), e) for e in self.events if e.kind == "exit" and e.func == PT + "main"]
+        return [(self.norm(e.guard), e) for e in self.events if e.kind == "exit"
+                and not any(q.startswith(PT) and q[len(PT):] in MODE_FUNCS for q in e.stack)]
 
     def atoms(self, t):
         """argparse destinations a guard depends on"""
